@@ -147,13 +147,27 @@ def rule_stability(model):
                       node=n, ctx=fi)
     # the comparator compares decorated keys only
     sb = model.func('DT_In', 'SortBy.__call__')
-    subs = [norm(n) for n in own_nodes(sb.node)
+    ps = [p for p in sb.params() if p != 'self'][:2]
+    loopvars = set()
+    for n in own_nodes(sb.node):
+        if isinstance(n, (ast.For, ast.comprehension)):
+            for x in ast.walk(n.target):
+                if isinstance(x, ast.Name):
+                    loopvars.add(x.id)
+    subs = [n for n in own_nodes(sb.node)
             if isinstance(n, ast.Subscript) and
-            isinstance(n.value, ast.Name) and n.value.id in ('o1', 'o2')]
-    r.instance(sb.where, ', '.join(sorted(set(subs))), 'comparator reads')
-    if any(s not in ('o1[0]', 'o2[0]', 'o1[i]', 'o2[i]') for s in subs):
-        r.finding(sb.where, ', '.join(sorted(set(subs))), 'the comparator '
-                  'looks beyond the decorated key', node=sb.node, ctx=sb)
+            isinstance(n.value, ast.Name) and n.value.id in ps]
+    r.instance(sb.where, ', '.join(sorted({norm(n) for n in subs})),
+               'comparator reads')
+    # the decorated pair is (key, client): position 0 is the key (or the
+    # key list, then indexed by the position of the sort field)
+    bad = [n for n in subs if not (
+        (isinstance(n.slice, ast.Constant) and n.slice.value == 0) or
+        (isinstance(n.slice, ast.Name) and n.slice.id in loopvars))]
+    if bad or not subs:
+        r.finding(sb.where, ', '.join(sorted({norm(n) for n in subs})),
+                  'the comparator looks beyond the decorated key',
+                  node=sb.node, ctx=sb)
     return r
 
 
@@ -162,19 +176,19 @@ def rule_predicate(model):
                    'dict of types) is applied to type(value)')
     m = model.module('DT_In')
     preds = {}
+    from .. import tables
+    TYPES = {'str', 'int', 'float', 'bytes', 'tuple', 'list', 'dict',
+             'bool', 'type(None)', 'type(())', 'type([])', "type('')",
+             'type(0)', 'type(0.0)', 'type({})', 'NoneType'}
     for name, vals in m.globals.items():
         for v in vals:
-            if isinstance(v, ast.Attribute) and v.attr == '__contains__' \
-                    and isinstance(v.value, ast.Dict):
-                keys = v.value.keys
-                all_types = all(
-                    (isinstance(k, ast.Name) and k.id in (
-                        'str', 'int', 'float', 'bytes', 'tuple', 'list',
-                        'dict', 'bool')) or
-                    (isinstance(k, ast.Call) and
-                     isinstance(k.func, ast.Name) and k.func.id == 'type')
-                    for k in keys)
-                if all_types:
+            if isinstance(v, ast.Attribute) and v.attr == '__contains__':
+                t = tables.eval_expr(model, m, v.value)
+                if t is None:
+                    continue
+                keys = [e[1] if e[0] == 'pair' else norm(e[1])
+                        for e in t[1]]
+                if keys and all(k in TYPES for k in keys):
                     preds[name] = v
     if not preds:
         raise AnalysisError('DT_In: type-predicate table not found')
@@ -232,6 +246,47 @@ class _Rename(ast.NodeTransformer):
             ast.Name(id=self.mp.get(node.id, node.id), ctx=node.ctx), node)
 
 
+def _is_getter(model, fi, call, direct=True, _depth=0):
+    """Is the call a read of an item attribute / key by a run-time name:
+    getattr(x, name, None), x.get(name) -- or (direct=False: only) a call
+    of a local helper every definition of which returns such a read of its
+    parameters."""
+    f = call.func
+    if direct and isinstance(f, ast.Name) and f.id == 'getattr' and \
+            len(call.args) == 3 and \
+            not isinstance(call.args[1], ast.Constant):
+        return True
+    if direct or _depth or not isinstance(f, ast.Name):
+        return False
+    defs = []
+    g = fi
+    while g is not None and not defs:
+        defs = [d for d in model.local_defs(g, f.id)]
+        g = g.parent
+    if not defs:
+        r = model.resolve_global(fi.module, f.id)
+        if r and r[0] == 'func' and r[1].module is fi.module:
+            defs = [('def', r[1].node)]
+    if not defs or not all(isinstance(d, tuple) and d[0] == 'def'
+                           for d in defs):
+        return False
+    ngetattr = 0
+    for d in defs:
+        rets = [n for n in ast.walk(d[1]) if isinstance(n, ast.Return)]
+        if len(rets) != 1 or not isinstance(rets[0].value, ast.Call) or \
+                len(d[1].body) > 2:
+            return False
+        c = rets[0].value
+        if isinstance(c.func, ast.Name) and c.func.id == 'getattr' and \
+                len(c.args) == 3:
+            ngetattr += 1
+        elif isinstance(c.func, ast.Attribute) and c.func.attr == 'get':
+            pass
+        else:
+            return False
+    return ngetattr > 0
+
+
 def key_fragments(model):
     """Statement lists of DT_In that extract a sort key: they hold a
     getter statement (getattr(obj, name, None) / obj.get(name)) assigning a
@@ -250,17 +305,16 @@ def key_fragments(model):
                     continue
                 for i, st in enumerate(lst):
                     kv = None
-                    if isinstance(st, ast.If):
-                        for c in st.body + st.orelse:
-                            if isinstance(c, ast.Assign) and \
-                                    isinstance(c.value, ast.Call) and \
-                                    isinstance(c.value.func, ast.Name) and \
-                                    c.value.func.id == 'getattr' and \
-                                    len(c.value.args) == 3 and \
-                                    not isinstance(c.value.args[1],
-                                                   ast.Constant) and \
-                                    isinstance(c.targets[0], ast.Name):
-                                kv = c.targets[0].id
+                    cands = [st] if isinstance(st, ast.Assign) else (
+                        st.body + st.orelse if isinstance(st, ast.If)
+                        else [])
+                    for c in cands:
+                        if isinstance(c, ast.Assign) and \
+                                isinstance(c.value, ast.Call) and \
+                                isinstance(c.targets[0], ast.Name) and \
+                                _is_getter(model, fi, c.value,
+                                           direct=isinstance(st, ast.If)):
+                            kv = c.targets[0].id
                     if kv:
                         out.append((fi, lst[i:], kv))
     return out
@@ -289,9 +343,10 @@ class _KeyDomain(Domain):
     TRUTHY (basic value), CALLABLE (non-basic callable), RESULT (what the
     callable returned: a value), SMALLEST."""
 
-    def __init__(self, kv, start):
+    def __init__(self, kv, start, is_getter=None):
         self.kv = kv
         self.start = start
+        self.is_getter = is_getter or (lambda call: False)
 
     def _val(self, e, st):
         """abstract value(s) of an expression over the key variable"""
@@ -328,7 +383,8 @@ class _KeyDomain(Domain):
                 e.func.id == 'getattr' or (
                     isinstance(e, ast.Call) and
                     isinstance(e.func, ast.Attribute) and
-                    e.func.attr == 'get') or isinstance(e, ast.Subscript):
+                    e.func.attr == 'get') or isinstance(e, ast.Subscript) \
+                or (isinstance(e, ast.Call) and self.is_getter(e)):
             return [self.start]
         return ['OTHER']
 
@@ -443,7 +499,8 @@ def rule_extractor_semantics(model, r):
         raise AnalysisError('C13.R4: no sort-key extractor found')
     for fi, stmts, kv in frs:
         for start, want in WANT.items():
-            dom = _KeyDomain(kv, start)
+            dom = _KeyDomain(kv, start, lambda c, fi=fi: _is_getter(
+                model, fi, c, direct=False))
             outs = Interp(dom).block(stmts, _KS(start))
             got = set()
             for o in outs:
@@ -524,10 +581,11 @@ def rule_twins(model):
     try:
         fi, loop, single = _extractors(model)
     except AnalysisError:
-        if nfr == 1:
-            # one shared extractor: agreement holds by construction
-            return r
-        raise
+        # not of the twin shape (one shared extractor, or the getter is a
+        # helper): agreement is decided by the semantic interpretation
+        # above -- every extractor maps every kind of key to the same
+        # abstract result
+        return r
     multi = list(loop.body)
     # drop the trailing accumulation (k.append(akey))
     if multi and isinstance(multi[-1], ast.Expr) and \
